@@ -39,7 +39,7 @@ class Case:
     """A module description (pure data), independent of gtirb objects, so that it can be rebuilt identically."""
 
     def __init__(self, rnd, nfun_max=2, with_data=True, with_aux=True, with_cfi=True, mods="ins,del,rep", with_funcs=True, max_mods=3,
-                 closed_tail=False, to_proxy=True, with_lead=False, with_scope=True, with_misc=True, with_ext=False, cfi_patches=False, data_first=0.12, whole_del=0.0, inner_data=0.0, orphan_code=0.0, with_syscall=False, late_entry=0.0, align_patches=False):
+                 closed_tail=False, to_proxy=True, with_lead=False, with_scope=True, with_misc=True, with_ext=False, cfi_patches=False, data_first=0.12, whole_del=0.0, inner_data=0.0, orphan_code=0.0, with_syscall=False, late_entry=0.0, align_patches=False, uneven_returns=0.0):
         self.rnd = rnd
         # bytes in front of the first block that belong to no block (the interval starts at 0x1000 - lead, the blocks at 0x1000)
         self.lead = rnd.choice((1, 2, 5)) if with_lead and rnd.random() < 0.12 else 0
@@ -100,6 +100,11 @@ class Case:
                 own = [i for i, x in enumerate(layout) if x.get("func") == f]
                 if len(own) > 1 and rnd.random() < late_entry:
                     self.entry_of[f] = rnd.choice(own[1:])
+        # returns a disassembler could not resolve: such a block keeps a lone proxy return edge although the function has callers, so the
+        # returning blocks of one function need not agree on their return sites
+        self.unresolved = set()
+        if uneven_returns:
+            self.unresolved = {i for i, x in enumerate(layout) if x["kind"] == "c" and x["ins"][-1][0] == "ret" and rnd.random() < uneven_returns}
         # labels: every block gets a start label L<i>; some get extra start / end labels
         self.extra_start = {i for i in range(len(layout)) if rnd.random() < 0.2}
         self.end_labels = {i for i in range(len(layout)) if rnd.random() < 0.3}
@@ -202,7 +207,7 @@ class Case:
             if isinstance(v, dict):
                 return {"dict": [[enc(k), enc(x)] for k, x in v.items()]}
             return v
-        return {k: enc(getattr(self, k)) for k in ("blocks", "nfun", "extra_start", "end_labels", "aux", "align", "cfi", "entry", "mods", "lead", "misc", "scope_groups", "entry_of")}
+        return {k: enc(getattr(self, k)) for k in ("blocks", "nfun", "extra_start", "end_labels", "aux", "align", "cfi", "entry", "mods", "lead", "misc", "scope_groups", "entry_of", "unresolved")}
 
     @classmethod
     def from_json(cls, d):
@@ -221,6 +226,7 @@ class Case:
         c.misc = []
         c.scope_groups = {}
         c.entry_of = {}
+        c.unresolved = set()
         for k, v in d.items():
             setattr(c, k, dec(v))
         c.blocks = [{kk: ([tuple(i) for i in vv] if kk == "ins" else vv) for kk, vv in b.items()} for b in c.blocks]
@@ -345,7 +351,7 @@ def build(case):
     for i in code:
         if layout[i]["ins"][-1][0] == "ret":
             f = layout[i].get("func")
-            if f is not None and callers[f]:
+            if f is not None and callers[f] and i not in getattr(case, "unresolved", ()):
                 for r in callers[f]:
                     add_edge(ir.cfg, gbs[i], r, ET.Return)
             else:
